@@ -561,9 +561,18 @@ sign<Number> sign<Number>::operator/(const sign<Number> &o) const {
   } else if (not_equal_zero() || o.not_equal_zero()) {
     return top();
   } else {
-    // Once we exclude top, bottom, zero, and non-zero
-    // signed division is like multiplication
-    return (*this) * o;
+    // Once we exclude top, bottom, zero, and non-zero the sign of a
+    // signed division is like the sign of the multiplication, except
+    // that integer division truncates: the quotient of two non-zero
+    // numbers can be zero (e.g., 3/4).
+    sign<Number> res = (*this) * o;
+    if (res.m_sign == sign_interval::GTZ) {
+      return sign<Number>(sign_interval::GEZ);
+    } else if (res.m_sign == sign_interval::LTZ) {
+      return sign<Number>(sign_interval::LEZ);
+    } else {
+      return res;
+    }
   }
 }
 
